@@ -123,12 +123,33 @@ def judge_weak(data):
     return []
 
 
-def judge_7bit(text, encname, extra_headers):
+_PRIOR_ASCII = b'Content-Type: text/plain; charset=utf-8\r\nMIME-Version: 1.0\r\n\r\nplain ascii text\r\n'
+_PRIOR_8BIT = b'Content-Type: text/plain; charset=utf-8\r\nMIME-Version: 1.0\r\n\r\nf\xc3\xbcr\r\n'
+
+
+def _envelope_with_history(prior):
+    """The Envelope object the message is parsed into: fresh, or one that already held another message which went through
+    encode_7bit() (checked as ASCII, or converted), or a copy / unpickled copy of such an envelope. parse() replaces
+    headers and message, so the verdict on the new message must not depend on that history."""
+    env = Envelope('s', ['r'])
+    if prior == 'none':
+        return env
+    first = _PRIOR_8BIT if 'converted' in prior else _PRIOR_ASCII
+    env.parse(first)
+    env.encode_7bit(encode_base64)
+    if prior.startswith('copy-'):
+        env = env.copy(['r'])
+    elif prior.startswith('pickle-'):
+        env = pickle.loads(pickle.dumps(env, pickle.HIGHEST_PROTOCOL))
+    return env
+
+
+def judge_7bit(text, encname, extra_headers, prior='none'):
     """text: str body with CRLF line ends; encname: 'base64' | 'qp' | 'none'."""
     body = text.encode('utf-8')
     block = b'Content-Type: text/plain; charset=utf-8\r\nMIME-Version: 1.0\r\n' + extra_headers
     data = block + b'\r\n' + body
-    env = Envelope('s', ['r'])
+    env = _envelope_with_history(prior)
     env.parse(data)
     before = env.flatten()
     is8 = any(b > 127 for b in body)
@@ -301,16 +322,22 @@ def sevenbit_case(draw):
     extra = draw(st.sampled_from([b'', b'Subject: x\r\n', b'Content-Transfer-Encoding: 8bit\r\n', b'Content-Transfer-Encoding: 7bit\r\n',
                                   b'content-transfer-encoding: 7BIT\r\n', b'Content-Transfer-Encoding: binary\r\n',
                                   b'Content-Transfer-Encoding: base64\r\n', b'Content-Transfer-Encoding: quoted-printable\r\n']))
-    return text, enc, extra
+    prior = draw(st.sampled_from(PRIORS))
+    return text, enc, extra, prior
+
+
+PRIORS = ['none', 'none', 'none', 'ascii', 'converted', 'copy-ascii', 'copy-converted', 'pickle-ascii', 'pickle-converted']
 
 
 def run_7bit(ctx, n):
     def one(v):
-        text, enc, extra = v
-        f = judge_7bit(text, enc, extra)
+        text, enc, extra, prior = v
+        f = judge_7bit(text, enc, extra, prior)
+        if f and prior != 'none':
+            f = [(sig + ':reused-envelope', msg + ' [envelope history: %s]' % prior) for sig, msg in f]
         is8 = any(ord(c) > 127 for c in text)
-        ctx.record((text, enc, extra), is8, labels=['7bit', 'enc=' + enc, '8bit-text' if is8 else 'ascii-text'],
-                   case=lambda: {'kind': '7bit', 'text': text, 'enc': enc, 'extra': hexb(extra)}, failures=f)
+        ctx.record((text, enc, extra, prior), is8, labels=['7bit', 'enc=' + enc, '8bit-text' if is8 else 'ascii-text', 'envelope-history=' + prior],
+                   case=lambda: {'kind': '7bit', 'text': text, 'enc': enc, 'extra': hexb(extra), 'prior': prior}, failures=f)
     hyp.drive(ctx, sevenbit_case(), one, n, salt=2)
 
 
@@ -351,7 +378,11 @@ def replay(case):
     if kind == '7bit':
         if '\n' in case['text'].replace('\r\n', '') or '\r' in case['text'].replace('\r\n', ''):
             return []
-        return judge_7bit(case['text'], case['enc'], unhex(case['extra']))
+        prior = case.get('prior', 'none')
+        if prior not in PRIORS:
+            return []
+        f = judge_7bit(case['text'], case['enc'], unhex(case['extra']), prior)
+        return [(sig + ':reused-envelope', msg) for sig, msg in f] if prior != 'none' else f
     block = unhex(case['block'])
     eol = unhex(case['eol'])
     if eol not in (b'\r\n', b'\n') or not in_domain(block):
